@@ -27,7 +27,9 @@ PROOF_MODULES = ["PyTealV.Proofs.C02Spill", "PyTealV.Proofs.C02RecPoints", "PyTe
                  "PyTealV.Proofs.C02GenSpill", "PyTealV.Proofs.C02GenProg", "PyTealV.Proofs.C02GenPres", "PyTealV.Proofs.C02GenValid",
                  "PyTealV.Proofs.C02GenPresV",
                  "PyTealV.Proofs.C02Gen",
-                 "PyTealV.Proofs.C02Compile"]
+                 "PyTealV.Proofs.C02Compile",
+                 # renaming invariance of `Src.runProg` and the composed theorems for the ORIGINAL program
+                 "PyTealV.Proofs.RenameLemmas", "PyTealV.Proofs.RenameSem", "PyTealV.Proofs.Rename", "PyTealV.Proofs.CompileOriginal"]
 TRUSTED = [
     "Lean 4 kernel; axioms propext, Classical.choice, Quot.sound only",
     "AVM spec lean/PyTealV/Avm (callsub/retsub/proto/frame_dig/frame_bury frame rules written from the AVM specification)",
@@ -67,6 +69,7 @@ def run(tier: str) -> int:
     nprog = 140 if tier == "quick" else 2500
     nctx = 5 if tier == "quick" else 12
     samples, distinct, evaluations = [], set(), 0
+    orig_samples = []
 
     # ---- (2) generated call graphs
     corpus = load_corpus("C02")
@@ -139,6 +142,18 @@ def run(tier: str) -> int:
                 comp = d.ask(f"composed-sexp {ver} {1 if fp else 0} {case.teal.encode().hex()} {case.sexp}")
                 stats[f"composed_theorem:fp={1 if fp else 0}:{comp.split(' ')[0]}:stage={cur_stage}"
                       + (":thm=ref" if " thm=ref" in comp else "")] += 1
+                # ... and those of `CompileOriginal.compile_correct_originalB[_ref]` (additionally `Check.renameOk` for the renaming
+                # that was applied): the theorem then speaks about the ORIGINAL program, this recipe
+                stats[f"original_theorem:fp={1 if fp else 0}:{comp.split(' ')[0]}:"
+                      + ("original=true" if " original=true" in comp else "original=false")
+                      + (":thm=ref" if " thm=ref" in comp else "")] += 1
+                if " renameOk[" in comp:
+                    # which part of `Check.renameOk` fails (routine ids replaced by a count)
+                    why = comp.split(" renameOk[", 1)[1].split("]", 1)[0]
+                    why = " ".join(("subs=" + str(w.count(":false")) + "-false") if w.startswith("subs=") else w for w in why.split(" "))
+                    stats["original_theorem_why:" + why] += 1
+                    if len(orig_samples) < 3:
+                        orig_samples.append({"answer": comp[:300], "version": ver, "fp": fp, "recipe": case.sexp[:1500]})
                 if bad is None and not verdict.startswith("valid"):
                     bad2 = exec_diff(case, r, 150 if tier == "quick" else 1500, stats)
                     if bad2 is None:
@@ -246,6 +261,9 @@ def run(tier: str) -> int:
         "samples": samples or [{"note": "no recursive sample recorded"}],
         "family_cases": fam_cases,
         "composed_theorem": {k.split(":", 1)[1]: v for k, v in sorted(stats.items()) if k.startswith("composed_theorem:")},
+        "original_theorem": {k.split(":", 1)[1]: v for k, v in sorted(stats.items()) if k.startswith("original_theorem:")},
+        "original_theorem_why_not": {"reasons": {k.split(":", 1)[1]: v for k, v in sorted(stats.items()) if k.startswith("original_theorem_why:")},
+                                     "samples": orig_samples},
         "genProg_correct_fragment": {k.split(":", 1)[1]: v for k, v in sorted(stats.items()) if k.startswith("genProg_correct:")},
         "spill_tie": spill_cov,
         "distribution": {"constructs": dict(gstats.most_common(40)), "run": dict(sorted(stats.items()))},
